@@ -166,7 +166,21 @@ func c08Reset(w *vWorld) {
 			all = append(all, v)
 		}
 	}
+	// only what differs from the pristine content is rewritten (every save is a
+	// synced transaction; twelve of them per case dominated the run time). The
+	// pristine content is what the store returned right after the first full
+	// reset of this world, compared field by field.
+	pristine := c08Pristine[w]
+	var current map[string]*userProfile
+	if pristine != nil {
+		current = c08Snapshot(w)
+	}
 	for _, u := range all {
+		if pristine != nil {
+			if have, ok := current[u]; ok && reflect.DeepEqual(have, pristine[u]) {
+				continue
+			}
+		}
 		p := &userProfile{U2fAuthData: map[int64]*u2fAuthData{}, TOTPAuthData: map[int64]*totpAuthData{}}
 		name := "token-of-" + u
 		if u == c08Other {
@@ -178,9 +192,24 @@ func c08Reset(w *vWorld) {
 			panic(err)
 		}
 	}
-	w.state.DeleteUserProfile("ghost")
-	w.state.DeleteUserProfile("newuser")
+	keep := map[string]bool{}
+	for _, u := range all {
+		keep[u] = true
+	}
+	if current == nil {
+		current = c08Snapshot(w)
+	}
+	for u := range current {
+		if !keep[u] {
+			w.state.DeleteUserProfile(u)
+		}
+	}
+	if pristine == nil {
+		c08Pristine[w] = c08Snapshot(w)
+	}
 }
+
+var c08Pristine = map[*vWorld]map[string]*userProfile{}
 
 func c08Snapshot(w *vWorld) map[string]*userProfile {
 	out := map[string]*userProfile{}
